@@ -93,16 +93,11 @@ def readLineBytesWin (vis refill : Nat) (st : St) : Except Err (Bytes × St) :=
     | some (l, r) => .ok (l, { st with rem := r })   -- fast path: copy Buf[count:pos-2]
     | none => readLineBytes st                        -- readLineBytesSlowly
 
-/-- `buf += string(b)` with `b` a byte converts the byte to a rune: bytes ≥ 0x80 become the
-    two-byte UTF-8 encoding of U+0080…U+00FF. -/
-def runesOfBytes (l : Bytes) : Bytes :=
-  l.flatMap fun b => if b < 128 then [b] else [(0xC0 : UInt8) ||| (b >>> 6), (0x80 : UInt8) ||| (b &&& 0x3F)]
-
 /-- readLine: the scan, as a string; an empty line is an error. -/
 def readLine (st : St) : Except Err (Bytes × St) :=
   match readLineBytes st with
   | .error e => .error e
-  | .ok (l, st') => if l = [] then .error .emptyLine else .ok (runesOfBytes l, st')
+  | .ok (l, st') => if l = [] then .error .emptyLine else .ok (l, st')
 
 def wrap64 (v : Int) : Int := (v + 9223372036854775808) % 18446744073709551616 - 9223372036854775808
 
